@@ -229,7 +229,9 @@ func (c *ElasticIndexClient) handleErrorResponses(retryCount int, res *elastic.B
 			if !(i.Status >= 200 && i.Status <= 299) {
 				if i.Error == nil {
 					log.WithField("status_code", i.Status).Warn("non 2xx response code the bulk indexing operation, but the returned error field is nil")
-					continue
+					// still a failed operation: give it error details so that it is retried and finally answered like
+					// any other failure (skipping it here left the event without any answer, forever)
+					i.Error = &elastic.ErrorDetails{Type: "unknown", Reason: "non 2xx status " + strconv.Itoa(i.Status) + " without error details"}
 				} else {
 					log.WithFields(log.Fields{
 						"es_error_type":   i.Error.Type,
